@@ -12,6 +12,7 @@
 -/
 import QV.Proofs.Include
 import QV.Proofs.ZoneFile.Compose
+import QV.Proofs.Flatten
 
 namespace QV.C25
 open QV QV.ZF QV.Inc QV.Spec.Inc
@@ -287,21 +288,152 @@ theorem C25_include_is_textual_partial {κ : Type} (resolve : κ → List UInt8 
   · exact C25_parse_append content p'.st.inp _ hchild hterm
       (fun y hy => by obtain ⟨l, r, h⟩ := hrec y hy; exact ⟨_, h⟩)
 
+/-- **The parser does not depend on where its line counter starts**: reading from line `l + k`
+    yields what reading from line `l` yields, with every line number — of records, include
+    requests and errors — increased by `k` -/
+theorem C25_line_shift (p : Parser) (k : Nat) :
+    collect { p with st := ⟨p.st.inp, p.st.line + k, p.st.paren⟩ } = (collect p).map (shiftY k) :=
+  collect_shift p k
+
+/-- … and after a text has been read without leaving a line unfinished, the reader is outside
+    parentheses -/
+theorem C25_ends_outside_parens (p : Parser) (hp : p.st.paren = false) : p.finish.st.paren = false :=
+  finish_paren p hp
+
+theorem recsOfSY_tagged {κ : Type} (file : κ) (ys : List Yield) :
+    recsOfSY (ys.filterMap (fun y => match y with
+        | .item (.record l r) => some (SY.record file l r)
+        | _ => none)) = recsOfY ys := recsOfSY_tagRecs file ys
+
+/-- **The flattened-file equation** for one `$INCLUDE`: if the included file consists of records,
+    is well terminated and error-free, ends with the origin the includer has (so that restoring
+    the includer's origin changes nothing), and the rest of the includer consists of records,
+    then reading the tree from the `$INCLUDE` on yields the same records as reading the single
+    text in which the `$INCLUDE` line is replaced by the included file's contents.  `_partial`:
+    one include, and no `$ORIGIN` lines to emulate the origin scoping when the included file
+    leaves another origin behind. -/
+theorem C25_flatten_one_partial {κ : Type} (resolve : κ → List UInt8 → Option (κ × List UInt8))
+    (D : Nat) (file child : κ) (depth : Nat) (p p' : Parser) (line : Nat) (path content : List UInt8)
+    (origin : Option (List UInt8)) (hctx : CtxWF p.ctx) (hp : p.st.paren = false)
+    (hn : p.next = (some (.item (.incl line path origin)), p')) (hd : depth < D)
+    (hres : resolve file path = some (child, content)) (hterm : content = [] ∨ Term content)
+    (hrec : ∀ y ∈ parseAll content (childContext p'.ctx origin), ∃ l r, y = .item (.record l r))
+    (hO : (Parser.withContext content (childContext p'.ctx origin)).finish.ctx.origin = p'.ctx.origin)
+    (hrest : ∀ y ∈ collect ⟨false, p'.st, (Parser.withContext content (childContext p'.ctx origin)).finish.ctx⟩,
+      ∃ l r, y = .item (.record l r)) :
+    recsOfSY (readFile resolve D file depth p).1 =
+      recsOfY (parseAll (content ++ p'.st.inp) (childContext p'.ctx origin)) := by
+  obtain ⟨h1, h2⟩ := C25_include_is_textual_partial resolve D file child depth p p' line path content origin hctx hn hd
+    hres hterm hrec
+  simp only at h1 h2
+  generalize hinc : (Parser.withContext content (childContext p'.ctx origin)).finish = fin at h1 h2 hO hrest
+  have g := next_spec (p := p) hctx
+  rw [hn] at g
+  obtain ⟨hitem, hctx', hlt⟩ := g
+  have hchild : CtxWF (childContext p'.ctx origin) := by
+    unfold childContext
+    cases origin with
+    | none => exact hctx'
+    | some o =>
+      simp only [ItemOK] at hitem
+      exact ⟨by intro o' ho'; simp at ho'; subst ho'; exact hitem o rfl, hctx'.2⟩
+  -- the context after the included file: restoring the origin changes nothing
+  have hrestore : ({ fin.ctx with origin := p'.ctx.origin } : Ctx) = fin.ctx := by
+    cases hc : fin.ctx with
+    | mk o a b c d => rw [hc] at hO; simp at hO; simp [hO]
+  have hfinctx : CtxWF fin.ctx := by rw [← hinc]; exact finish_ctxWF _ hchild
+  obtain ⟨_, hp'err⟩ := next_item_error p p' _ hn
+  have hp'paren : p'.st.paren = false := next_paren p p' _ hn hp
+  have hfinparen : fin.st.paren = false := by rw [← hinc]; exact finish_paren _ rfl
+  rw [hrestore] at h1
+  -- the tree reading
+  have hR := C25_file_of_records resolve D file depth p'.st.inp.length { p' with ctx := fin.ctx } (Nat.le_refl _)
+    hp'err hfinctx (by
+      have : ({ p' with ctx := fin.ctx } : Parser) = ⟨false, p'.st, fin.ctx⟩ := by
+        cases p'; simp at hp'err ⊢; exact hp'err
+      rw [this]; exact hrest)
+  rw [h1, hR]
+  simp only [recsOfSY_append, recsOfSY_tagged]
+  -- the flat reading
+  rw [h2, recsOfY_append]
+  congr 1
+  have e1 : ({ p' with ctx := fin.ctx } : Parser) = ⟨false, ⟨p'.st.inp, p'.st.line, false⟩, fin.ctx⟩ := by
+    cases p' with
+    | mk e st c => cases st; simp at hp'err hp'paren ⊢; exact ⟨hp'err, hp'paren⟩
+  rw [e1, hfinparen]
+  exact recsOfY_line _ _ _ _ _
+
+/-! ### the flattened file of a whole tree -/
+
+/-- `$ORIGIN` lines exist for every name: `originLine o` (the name written with `\DDD` octets)
+    sets the origin to `o` and yields nothing, in every context -/
+theorem C25_origin_line (o : List UInt8) (ho : NameWF o) : OLine originLine o := OLine_originLine o ho
+
+/-- **Reading a tree = reading the flattened file.**  `t` describes a file cut at its `$INCLUDE`
+    lines, with the included files as sub-trees (`Tree`); `t.content` is the file as it is on
+    disk, `t.flat originLine ctx` the flattened text: every `$INCLUDE` line replaced by
+    `$ORIGIN <origin of the included file>`, the included file's flattened text, and
+    `$ORIGIN <origin of the includer>`.  For every tree that satisfies `TreeOK` (each piece
+    between `$INCLUDE` lines ends with an unescaped newline and, read on its own, consists of
+    records; each `$INCLUDE` line read on its own is the request it is; paths resolve to the
+    sub-trees; the depth limit is respected; where the includer has no origin the included file
+    leaves none): the records of the tree reading are exactly the records of the flattened text,
+    in order, and both readings end in the same context.  `_partial`: the tree must come cut into
+    pieces that parse on their own (the cut is not computed from the text), and files with errors
+    are outside the statement. -/
+theorem C25_flatten_tree_partial {κ : Type} (resolve : κ → List UInt8 → Option (κ × List UInt8)) (D : Nat)
+    (main : κ) (t : Tree κ) (hok : TreeOK resolve D originLine main 0 {} t) :
+    recsOfSY (readTree resolve D main t.content) = recsOfY (parseAll (t.flat originLine {}) {}) ∧
+    (readFile resolve D main 0 (Parser.new t.content)).2 =
+      some (Parser.withContext (t.flat originLine {}) {}).finish.ctx := by
+  obtain ⟨h1, h2, _, _⟩ := flatten_tree resolve D originLine t main 0 {} CtxWF_default hok 1
+  refine ⟨?_, ?_⟩
+  · unfold readTree
+    rw [show Parser.new t.content = ⟨false, ⟨t.content, 1, false⟩, {}⟩ from rfl, h1]
+    exact recsOfY_line _ _ _ _ _
+  · rw [show Parser.new t.content = ⟨false, ⟨t.content, 1, false⟩, {}⟩ from rfl, h2]
+    congr 1
+    exact finish_ctx_line _ _ _ _ _
+
+/-- the records the machine yields -/
+def recsOfFs (ys : List FsYield) : List Rec :=
+  ys.filterMap fun y => match y with
+    | .record _ _ r => some r
+    | _ => none
+
+/-- … and therefore the same holds for the include-stack machine of `fs::Parser::next` -/
+theorem C25_flatten_machine_partial (res : Resolver) (B D : Nat) (hB : 2 ≤ B)
+    (hsize : ∀ a b p c, res a b = .opened p c → c.length + 2 ≤ B)
+    (hnp : ∀ a b, res a b ≠ .noParent) (main : Path) (t : Tree Path)
+    (hok : TreeOK (resolveOf res) D originLine main 0 {} t) :
+    recsOfFs (runFs res B (FsParser.start main t.content D)) = recsOfY (parseAll (t.flat originLine {}) {}) := by
+  rw [C25_machine_refines_spec res B D hB hsize hnp, ← (C25_flatten_tree_partial (resolveOf res) D main t hok).1]
+  generalize readTree (resolveOf res) D main t.content = ys
+  induction ys with
+  | nil => rfl
+  | cons y ys ih =>
+    simp only [recsOfFs, recsOfSY, List.map_cons, List.filterMap_cons] at ih ⊢
+    cases y with
+    | record f l r => simp [conv, ih]
+    | err f k l => cases k <;> simp [conv, ih]
+    | panic => simp [conv, ih]
+
 /-!
   ### What is not proved (gap)
 
   The property's literal wording — "the same records as parsing the equivalent file with each
-  `$INCLUDE` replaced by the included file's contents" — is proved in the decomposed form of
-  `C25_include_is_textual_partial` (built on `C25_machine_refines_spec` and `C25_parse_append`):
-  tree reading and flat reading of the spliced text yield the same records for the included
-  text and then read the same remaining text from contexts that differ only in the origin
-  (restored by the tree reading — the "origin scoping") and in the line counter.  Not proved:
-  that reading a text from two line counters yields the same records up to their line numbers
-  (needed to state one equation between record lists for a whole flattened file, together with
-  `$ORIGIN` lines that emulate the origin scoping when the includer's origin is set), and the
-  case of nested `$INCLUDE`s inside the included file.  On every run the literal form is
-  checked by the harness's flattening oracle (op `incflat`: the flattened single file is parsed
-  by the real in-memory parser; the record lists must be equal).
+  `$INCLUDE` replaced by the included file's contents, where the included file starts with the
+  includer's context (or the directive's origin) and the includer's origin is restored
+  afterwards" — is proved as `C25_flatten_tree_partial` / `C25_flatten_machine_partial` for whole
+  trees with any nesting, the origin scoping being emulated by `$ORIGIN` lines in the flattened
+  text (built on `C25_machine_refines_spec`, `C25_parse_append`, `C25_line_shift`,
+  `C25_ends_outside_parens`, `C25_origin_line`).  What remains: the tree must be given cut at its
+  `$INCLUDE` lines into pieces each of which parses on its own (`TreeOK`, checkable by
+  evaluation) — deriving that cut from the text alone needs the parser to be stable under
+  *replacing* a suffix of its input, not only under appending one; and trees whose reading hits
+  an error are not covered.  On every run the literal form is also checked by the harness's
+  flattening oracle (op `incflat`: the flattened single file is parsed by the real in-memory
+  parser; the record lists must be equal).
 -/
 
 /-! ### non-vacuity: a concrete tree, run through machine and semantics -/
@@ -415,5 +547,156 @@ example :
     rw [h2]
     decide +kernel
 
+
+/-! ### non-vacuity: line counter, parentheses, the flattened file -/
+
+example : collect ⟨false, ⟨exA, 1 + 41, false⟩, {}⟩ =
+    [.item (.record 43 ⟨[1, 97, 1, 116, 0], 5, 1, 2, [1, 98, 1, 116, 0]⟩)] := by
+  have h := C25_line_shift ⟨false, ⟨exA, 1, false⟩, {}⟩ 41
+  simp only at h
+  rw [h, show collect ⟨false, ⟨exA, 1, false⟩, {}⟩ = parseAll exA {} from rfl, exA_parse]
+  rfl
+
+example : (Parser.withContext "a NS ( b\n ) ; c\n".toUTF8.toList { origin := some [0], prevTtl := some 1, prevClass := some 1 }).finish.st =
+    ⟨[], 3, false⟩ ∧
+    (Parser.withContext exA {}).finish.st.paren = false :=
+  ⟨by decide +kernel, C25_ends_outside_parens _ rfl⟩
+
+private def exP2 : Parser :=
+  ⟨false, ⟨"$INCLUDE i.zone\n".toUTF8.toList ++ exMainRest, 2, false⟩, { origin := some [1, 116, 0] }⟩
+private def exP2' : Parser := ⟨false, ⟨exMainRest, 3, false⟩, { origin := some [1, 116, 0] }⟩
+
+/-- `C25_flatten_one_partial` applies: `$INCLUDE i.zone` (no origin given; the included file
+    keeps the origin `t.`) — tree reading and reading of the flattened text give the same two
+    records -/
+example :
+    recsOfSY (readFile (fun (_ : String) (_ : List UInt8) => some ("i.zone", exInc)) 1 "main.zone" 0 exP2).1 =
+      [⟨[1, 116, 0], 7, 1, 1, [9, 9, 9, 9]⟩, ⟨[1, 97, 1, 116, 0], 7, 1, 1, [1, 2, 3, 4]⟩] ∧
+    recsOfY (parseAll (exInc ++ exMainRest) { origin := some [1, 116, 0] }) =
+      [⟨[1, 116, 0], 7, 1, 1, [9, 9, 9, 9]⟩, ⟨[1, 97, 1, 116, 0], 7, 1, 1, [1, 2, 3, 4]⟩] := by
+  have hn : exP2.next = (some (.item (.incl 2 "i.zone".toUTF8.toList (some [1, 116, 0]))), exP2') := by
+    decide +kernel
+  have hparse : parseAll exInc (childContext exP2'.ctx (some [1, 116, 0])) =
+      [.item (.record 1 ⟨[1, 116, 0], 7, 1, 1, [9, 9, 9, 9]⟩)] := by decide +kernel
+  have h := C25_flatten_one_partial (fun (_ : String) (_ : List UInt8) => some ("i.zone", exInc)) 1
+    "main.zone" "i.zone" 0 exP2 exP2' 2 "i.zone".toUTF8.toList exInc (some [1, 116, 0])
+    ⟨by intro o ho; cases ho; exact ⟨[[116]], by simp [LabelsOK], by decide, by decide⟩, by intro o ho; cases ho⟩
+    rfl hn (by decide) rfl
+    (.inr ⟨"@ 7 IN A 9.9.9.9".toUTF8.toList, by decide +kernel, by decide +kernel⟩)
+    (by rw [hparse]; intro y hy; simp at hy; subst hy; exact ⟨_, _, rfl⟩)
+    (by decide +kernel)
+    (by
+      rw [show collect ⟨false, exP2'.st, (Parser.withContext exInc (childContext exP2'.ctx (some [1, 116, 0]))).finish.ctx⟩ =
+        [.item (.record 3 ⟨[1, 97, 1, 116, 0], 7, 1, 1, [1, 2, 3, 4]⟩)] from by decide +kernel]
+      intro y hy; simp at hy; subst hy; exact ⟨_, _, rfl⟩)
+  have hflat : recsOfY (parseAll (exInc ++ exMainRest) { origin := some [1, 116, 0] }) =
+      [⟨[1, 116, 0], 7, 1, 1, [9, 9, 9, 9]⟩, ⟨[1, 97, 1, 116, 0], 7, 1, 1, [1, 2, 3, 4]⟩] := by decide +kernel
+  exact ⟨h.trans hflat, hflat⟩
+
+/-! ### non-vacuity: a whole tree and its flattened file -/
+
+/-- `main.zone` = `$ORIGIN t.` / `$INCLUDE i.zone s.` / `a IN A 1.2.3.4`, with `i.zone` =
+    `@ 7 IN A 9.9.9.9` -/
+private def exTree : Tree String :=
+  .node "$ORIGIN t.\n".toUTF8.toList "$INCLUDE i.zone s.\n".toUTF8.toList "i.zone".toUTF8.toList
+    (some [1, 115, 0]) "i.zone" (.leaf exInc) (.leaf exMainRest)
+
+private def exResolve : String → List UInt8 → Option (String × List UInt8) := fun _ _ => some ("i.zone", exInc)
+
+private theorem nameWF_s : NameWF [1, 115, 0] := ⟨[[115]], by simp [LabelsOK], by decide, by decide⟩
+private theorem nameWF_t : NameWF [1, 116, 0] := ⟨[[116]], by simp [LabelsOK], by decide, by decide⟩
+
+/-- the flattened text: `$ORIGIN t.` / `$ORIGIN \115.` / `@ 7 IN A 9.9.9.9` / `$ORIGIN \116.` /
+    `a IN A 1.2.3.4` -/
+example : exTree.flat originLine {} =
+    "$ORIGIN t.\n$ORIGIN \\115.\n@ 7 IN A 9.9.9.9\n$ORIGIN \\116.\na IN A 1.2.3.4\n".toUTF8.toList := by
+  decide +kernel
+
+private theorem exTree_ok : TreeOK exResolve 1 originLine "main.zone" 0 {} exTree := by
+  unfold exTree
+  simp only [TreeOK]
+  have hA : endCtx {} "$ORIGIN t.\n".toUTF8.toList = { origin := some [1, 116, 0] } := by decide +kernel
+  have hcc : childContext (endCtx {} "$ORIGIN t.\n".toUTF8.toList) (some [1, 115, 0]) = { origin := some [1, 115, 0] } := by
+    rw [hA]; rfl
+  refine ⟨.inr ⟨"$ORIGIN t.".toUTF8.toList, by decide +kernel, by decide +kernel⟩, ?_,
+    ⟨"$INCLUDE i.zone s.".toUTF8.toList, by decide +kernel, by decide +kernel⟩, ⟨1, by decide +kernel⟩, by decide, rfl,
+    ⟨.inr ⟨"@ 7 IN A 9.9.9.9".toUTF8.toList, by decide +kernel, by decide +kernel⟩, ?_⟩, ?_, ?_, ?_,
+    ⟨.inr ⟨"a IN A 1.2.3.4".toUTF8.toList, by decide +kernel, by decide +kernel⟩, ?_⟩⟩
+  · rw [show items0 {} "$ORIGIN t.\n".toUTF8.toList = [] from by decide +kernel]
+    intro y hy; cases hy
+  · rw [hcc, show items0 { origin := some [1, 115, 0] } exInc =
+      [.item (.record 0 ⟨[1, 115, 0], 7, 1, 1, [9, 9, 9, 9]⟩)] from by decide +kernel]
+    intro y hy; simp at hy; subst hy; exact ⟨_, _, rfl⟩
+  · intro o ho
+    rw [hcc] at ho
+    cases ho
+    exact C25_origin_line _ nameWF_s
+  · intro o ho
+    rw [hA] at ho
+    cases ho
+    exact C25_origin_line _ nameWF_t
+  · intro ho
+    rw [hA] at ho
+    cases ho
+  · rw [show items0 _ exMainRest = [.item (.record 0 ⟨[1, 97, 1, 116, 0], 7, 1, 1, [1, 2, 3, 4]⟩)] from by decide +kernel]
+    intro y hy; simp at hy; subst hy; exact ⟨_, _, rfl⟩
+
+/-- `C25_flatten_tree_partial` applies to it: both readings give the record of the included file
+    under `s.` and then the includer's record under `t.` -/
+example :
+    recsOfSY (readTree exResolve 1 "main.zone" exTree.content) =
+      [⟨[1, 115, 0], 7, 1, 1, [9, 9, 9, 9]⟩, ⟨[1, 97, 1, 116, 0], 7, 1, 1, [1, 2, 3, 4]⟩] ∧
+    recsOfY (parseAll (exTree.flat originLine {}) {}) =
+      [⟨[1, 115, 0], 7, 1, 1, [9, 9, 9, 9]⟩, ⟨[1, 97, 1, 116, 0], 7, 1, 1, [1, 2, 3, 4]⟩] := by
+  have h := (C25_flatten_tree_partial exResolve 1 "main.zone" exTree exTree_ok).1
+  have hflat : recsOfY (parseAll (exTree.flat originLine {}) {}) =
+      [⟨[1, 115, 0], 7, 1, 1, [9, 9, 9, 9]⟩, ⟨[1, 97, 1, 116, 0], 7, 1, 1, [1, 2, 3, 4]⟩] := by decide +kernel
+  exact ⟨h.trans hflat, hflat⟩
+
+example : OLine originLine [0] ∧ originLine [0] = "$ORIGIN .\n".toUTF8.toList :=
+  ⟨C25_origin_line [0] NameWF_root, by decide +kernel⟩
+
+/-- the same tree through the include-stack machine, with a resolver that opens `i.zone` for
+    every `$INCLUDE` -/
+private def exTreeFs : Tree Path :=
+  .node "$ORIGIN t.\n".toUTF8.toList "$INCLUDE i.zone s.\n".toUTF8.toList "i.zone".toUTF8.toList
+    (some [1, 115, 0]) "i.zone".toUTF8.toList (.leaf exInc) (.leaf exMainRest)
+
+private def exRes : Resolver := fun _ _ => .opened "i.zone".toUTF8.toList exInc
+
+example :
+    recsOfFs (runFs exRes 100 (FsParser.start "main.zone".toUTF8.toList exTreeFs.content 1)) =
+      recsOfY (parseAll (exTreeFs.flat originLine {}) {}) := by
+  refine C25_flatten_machine_partial exRes 100 1 (by decide)
+    (by intro a b p c h; cases h; decide +kernel) (by intro a b h; cases h)
+    "main.zone".toUTF8.toList exTreeFs ?_
+  unfold exTreeFs
+  simp only [TreeOK]
+  have hA : endCtx {} "$ORIGIN t.\n".toUTF8.toList = { origin := some [1, 116, 0] } := by decide +kernel
+  have hcc : childContext (endCtx {} "$ORIGIN t.\n".toUTF8.toList) (some [1, 115, 0]) = { origin := some [1, 115, 0] } := by
+    rw [hA]; rfl
+  refine ⟨.inr ⟨"$ORIGIN t.".toUTF8.toList, by decide +kernel, by decide +kernel⟩, ?_,
+    ⟨"$INCLUDE i.zone s.".toUTF8.toList, by decide +kernel, by decide +kernel⟩, ⟨1, by decide +kernel⟩, by decide,
+    rfl,
+    ⟨.inr ⟨"@ 7 IN A 9.9.9.9".toUTF8.toList, by decide +kernel, by decide +kernel⟩, ?_⟩, ?_, ?_, ?_,
+    ⟨.inr ⟨"a IN A 1.2.3.4".toUTF8.toList, by decide +kernel, by decide +kernel⟩, ?_⟩⟩
+  · rw [show items0 {} "$ORIGIN t.\n".toUTF8.toList = [] from by decide +kernel]
+    intro y hy; cases hy
+  · rw [hcc, show items0 { origin := some [1, 115, 0] } exInc =
+      [.item (.record 0 ⟨[1, 115, 0], 7, 1, 1, [9, 9, 9, 9]⟩)] from by decide +kernel]
+    intro y hy; simp at hy; subst hy; exact ⟨_, _, rfl⟩
+  · intro o ho
+    rw [hcc] at ho
+    cases ho
+    exact C25_origin_line _ nameWF_s
+  · intro o ho
+    rw [hA] at ho
+    cases ho
+    exact C25_origin_line _ nameWF_t
+  · intro ho
+    rw [hA] at ho
+    cases ho
+  · rw [show items0 _ exMainRest = [.item (.record 0 ⟨[1, 97, 1, 116, 0], 7, 1, 1, [1, 2, 3, 4]⟩)] from by decide +kernel]
+    intro y hy; simp at hy; subst hy; exact ⟨_, _, rfl⟩
 
 end QV.C25
